@@ -17,7 +17,7 @@ THEOREMS = ['C19_adj_support_iff_supra_and_component', 'C19_adj_label_is_compone
 RULE = ('stacks of symmetric matrices: n=3..7 nodes, 2..7 subjects per group (equal when paired), integer entries 0..5 plus '
         'planted effects of either sign on 1..4 connections (family multi: strong effects on 2-3 node-disjoint paths under a random numbering, giving several components), planted zero-variance connections (equal constants, unequal '
         'constants, constant in one group only); thresholds k+0.37, occasionally negative; '
-        'tail both/left/right; paired/unpaired; k=8..24 recorded permutations (RandomState subclass passed as seed); a '
+        'tail both/left/right - in two thirds of the cases (paired AND unpaired, main call, swapped-groups call, reordered call, nbs_parallel) handed over as a string that is EQUAL to the literal but another object (\'\'.join, json.loads, str.strip, encode/decode, numpy.str_ element of an array, str() of it; recorded per case as tail_object), judged by the same oracle; paired/unpaired; k=8..24 recorded permutations (RandomState subclass passed as seed); a '
         'single-connection family (n=2, groups of 1..5 subjects, many degenerate vectors) that exercises the t decision '
         'alone; exact_tie: the threshold EQUALS the t statistic of a planted connection whose binary64 evaluation is exact by '
         'construction (unpaired 2+2 subjects with pooled variance a perfect square, unpaired 8+8 with SS 14/56/126, paired 4 with '
@@ -574,6 +574,31 @@ def model_line(x, y, thr, tail, paired, perms, rands):
                      enc_q(thr), enc_bool(paired), str(len(perms))] + [enc_list(p) for p in perms] + [str(len(rands))] + [enc_list(q, enc_q) for q in rands])
 
 
+# ---------------------------------------------------------------- the tail option as a string OBJECT
+# `tail` is the only string option of nbs_bct / nbs_parallel.nbs_bct.  A literal 'both' in this file is the very object the literal
+# 'both' in bct/nbs.py is (CPython interns such constants), so a comparison by identity (`tail is 'both'`) would pass on literals and
+# fail on every string that is merely EQUAL: one read from json / argparse / a config file, or built at run time.  Two thirds of the
+# cases hand over such a string (rotating constructions); the oracle is the one of the literal.
+TAIL_OBJECTS = [
+    ("''.join([t[:2], t[2:]])", lambda t: ''.join([t[:2], t[2:]])),
+    ("json.loads('\"%s\"' % t)", lambda t: __import__('json').loads('"%s"' % t)),
+    ("(' ' + t + '\\n').strip()", lambda t: (' ' + t + '\n').strip()),
+    ('t.encode().decode()', lambda t: t.encode().decode()),
+    ('np.array([t])[0]  (numpy.str_)', lambda t: np.array([t])[0]),
+    ('str(np.array([t])[0])', lambda t: str(np.array([t])[0])),
+]
+
+
+def tail_object(tail, t):
+    """(description, object): the literal for t % 3 == 0, else an equal string that is a different object"""
+    if t % 3 == 0:
+        return 'literal', tail
+    how, mk = TAIL_OBJECTS[(t // 3 + t) % len(TAIL_OBJECTS)]
+    obj = mk(tail)
+    assert obj == tail and (obj is not tail or tail == ''), how
+    return how, obj
+
+
 def run(ctx):
     import bct
     import bct.nbs_parallel as npar
@@ -593,11 +618,13 @@ def run(ctx):
         nx, ny = x.shape[2], y.shape[2]
         case = {'fn': 'nbs_bct', 'family': fam, 'n': n, 'x': x.tolist(), 'y': y.tolist(),
                 'thresh': thr, 'tail': tail, 'paired': paired, 'k': k, 'seed': seed, 'verbose': verbose, 'dtype': str(x.dtype)}
+        tail_how, tail_o = tail_object(tail, t)         # what the calls below receive as `tail` (equal to `tail`, usually another object)
+        case['tail_object'] = tail_how
         # ---------------- rejection cases: exception class / message against the model's exception code
         if fam == 'reject':
             rec = Rec(seed)
             try:
-                quiet(bct.nbs_bct, x, y, thr, k=k, tail=tail, paired=paired, verbose=verbose, seed=rec)
+                quiet(bct.nbs_bct, x, y, thr, k=k, tail=tail_o, paired=paired, verbose=verbose, seed=rec)
                 code = 0
             except Timeout:
                 ctx.fail('nbs_bct:timeout', 'did not terminate', case); continue
@@ -630,7 +657,7 @@ def run(ctx):
         x0, y0 = x.copy(), y.copy()
         code = 0
         try:
-            pv, adj, null = quiet(bct.nbs_bct, x, y, thr, k=k, tail=tail, paired=paired, verbose=verbose, seed=rec)
+            pv, adj, null = quiet(bct.nbs_bct, x, y, thr, k=k, tail=tail_o, paired=paired, verbose=verbose, seed=rec)
             err = None
         except bct.utils.BCTParamError as e:
             pv = adj = null = None; err = 'param:' + str(e); code = exn_code(e)
@@ -641,6 +668,7 @@ def run(ctx):
         tie_variants(case)      # input-representation layer: further calls follow and the model comparison of this case is batched
         ctx.case(case, nontrivial=bool(S), sample_every=41)
         ctx.count('family:' + fam); ctx.count('n=%d' % n); ctx.count('tail:' + tail); ctx.count('paired' if paired else 'unpaired')
+        ctx.count('tail-object:%s:%s' % ('literal' if tail_how == 'literal' else 'equal-not-identical', 'paired' if paired else 'unpaired'))
         ctx.count('groups:%s' % ('equal' if nx == ny else 'unequal'))
         if verbose:
             ctx.count('verbose')
@@ -690,13 +718,13 @@ def run(ctx):
             # ------------ metamorphic: swap groups + tail ; reorder subjects
             if t % 2 == 0 and ok:
                 try:
-                    _, adj2, _ = quiet(bct.nbs_bct, y, x, thr, k=1, tail=SWAP[tail], paired=paired, seed=Rec(seed))
-                    ctx.check(partition_of(adj2) == partition_of(adj), 'nbs_bct:swap_groups_tail', 'swapping the groups together with the tail changed the observed components', case)
+                    _, adj2, _ = quiet(bct.nbs_bct, y, x, thr, k=1, tail=tail_object(SWAP[tail], t + 1)[1], paired=paired, seed=Rec(seed))
+                    ctx.check(partition_of(adj2) == partition_of(adj), 'nbs_bct:swap_groups_tail', 'swapping the groups together with the tail changed the observed components (swapped call: tail=%r given as %s)' % (SWAP[tail], tail_object(SWAP[tail], t + 1)[0]), case)
                 except bct.utils.BCTParamError as e:
                     ctx.fail('nbs_bct:swap_groups_tail', 'swapped call raised %s' % e, case)
                 px = r.permutation(nx); py = px if paired else r.permutation(ny)
                 try:
-                    _, adj3, _ = quiet(bct.nbs_bct, x[:, :, px], y[:, :, py], thr, k=1, tail=tail, paired=paired, seed=Rec(seed))
+                    _, adj3, _ = quiet(bct.nbs_bct, x[:, :, px], y[:, :, py], thr, k=1, tail=tail_o, paired=paired, seed=Rec(seed))
                     ctx.check(partition_of(adj3) == partition_of(adj), 'nbs_bct:reorder_subjects', 'reordering subjects within the groups (%s,%s) changed the observed components' % (px.tolist(), py.tolist()), case)
                 except bct.utils.BCTParamError as e:
                     ctx.fail('nbs_bct:reorder_subjects', 'reordered call raised %s' % e, case)
@@ -719,7 +747,7 @@ def run(ctx):
             pseed = int(seed % 100000)
             pcase = dict(case, fn='nbs_parallel.nbs_bct', seed=pseed, workers=1)
             try:
-                ppv, padj, pnull = quiet(npar.nbs_bct, x, y, thr, k=k, tail=tail, paired=paired, verbose=verbose, seed=pseed, workers=1)
+                ppv, padj, pnull = quiet(npar.nbs_bct, x, y, thr, k=k, tail=tail_o, paired=paired, verbose=verbose, seed=pseed, workers=1)
             except Exception as e:
                 ctx.fail('nbs_parallel.nbs_bct:raises', 'bct.nbs_bct returns on this input but nbs_parallel.nbs_bct raised %r' % e, pcase); continue
             ctx.count('nbs_parallel')
